@@ -135,6 +135,11 @@ func (g *wgen) stepExpr(j string, needs []string, matrix []string, steps map[str
 	add("format('{0} {2}', github.ref)")
 	add("fromJSON('[1,')")
 	add("join(github.event.*.name, ',')")
+	// untrusted inputs reached through index literals (reported in script positions only)
+	add("github.event['pull_request'].title")
+	add("github.event.pull_request['title']")
+	add("github['head_ref']")
+	add("github.event.issue.body")
 	// (no space after ':' — the expressions are written into plain YAML scalars)
 	add("fromJSON('{\"Foo\":{\"Bar\":1},\"baz\":[true,null]}').foo.bar")
 	add("fromJSON('{\"Foo\":1,\"b\":\"x\"}')['FOO']")
@@ -515,6 +520,11 @@ func (g *wgen) gen() {
 			default:
 				line("run: echo ")
 				d.e(f, g.stepExpr(j, needs, matrix, steps, stepIDs, jenv))
+				if r.Chance(1, 2) {
+					// a script position always worth re-casing: an untrusted input reached through index literals
+					d.w(f, " ")
+					d.e(f, r.Pick([]string{"github.event['pull_request'].title", "github.event.pull_request['title']", "github['head_ref']", "github.event['comment']['body']"}))
+				}
 				d.w(f, "\n")
 				if r.Chance(1, 2) {
 					line("env:\n")
@@ -628,6 +638,21 @@ func lintFiles(root string, text [nFiles][]byte) ([]lintDiag, error) {
 	out := make([]lintDiag, 0, len(errs))
 	for _, e := range errs {
 		out = append(out, lintDiag{e.Line, e.Column, e.Kind, e.Message})
+	}
+	// the same workflow once more in a multi-file run in which the called reusable workflow comes
+	// first: its interface is then taken from the in-memory AST instead of a re-parse of the file
+	l2, err := actionlint.NewLinter(io.Discard, &actionlint.LinterOptions{Shellcheck: "", Pyflakes: ""})
+	if err != nil {
+		return nil, err
+	}
+	errs2, err := l2.LintFiles([]string{filepath.Join(root, fileNames[fReusable]), wf}, proj)
+	if err != nil {
+		return nil, err
+	}
+	for _, e := range errs2 {
+		if strings.HasSuffix(filepath.ToSlash(e.Filepath), "workflows/w.yml") {
+			out = append(out, lintDiag{e.Line + 100000, e.Column, e.Kind, e.Message})
+		}
 	}
 	return out, nil
 }
